@@ -117,8 +117,8 @@ def monC08 (h : Hist) : Option String :=
       let e ← (stores.reverse.findSome? fun s => match s.op, s.result, s.val with
         | "get", "ok", .ent en true => some en
         | _, _, _ => none)
-      let condCall := Header.has c.hdr sIfNoneMatch || Header.has c.hdr sIfModifiedSince ||
-        (!Header.has e.resp.header sETag && !Header.has e.resp.header sLastModified)
+      -- a validation request for e: it carries the stored validators and no other precondition
+      let condCall := Spec.isValidationOf e.resp.header c.hdr
       if !isPlainGet ri || !condCall then none else
       if rp.resp.status = 304 then
         -- freshening: the entry is written back with merged fields, same body, new timestamps
